@@ -22,7 +22,7 @@ from torch_frame.data import Dataset
 TOL = 1e-9          # cross-batch comparisons (float64, relative to max(1, |out|)); same-batch comparisons are bit-exact
 
 
-TOL32 = 2e-5        # cross-batch comparisons in float32 (relative)
+TOL32 = 2e-4        # cross-batch comparisons in float32 (relative; columns that encode to ~1e7 amplify float32 round-off)
 
 
 def tol_of(dtype):
